@@ -51,7 +51,7 @@ package orderedmap
 //@ ensures ok-after (omOK m)
 //@ ensures pairs-untouched (= m.Pairs (old m.Pairs))
 //@ ensures found-iff-indexed (= result1 (mapin m.inner key))
-//@ ensures value-of-pair (= result0 (ite result1 (. (mapget m.inner key) Value) (zero V)))
+//@ ensures value-of-pair (= result0 (ite result1 (. (mapget m.inner key) Value) (zero (typeof (. (omPair m 0) Value)))))
 //@ ensures noop-when-consistent (=> (old (omConsistent m)) (and (heap-unchanged (obj m)) (heap-unchanged (map m.inner))))
 //@ ensures others-untouched (omOthersUntouched m)
 
@@ -62,7 +62,7 @@ package orderedmap
 //@ modifies (obj m) (map m.inner)
 //@ ensures ok-after (omOK m)
 //@ ensures pairs-untouched (= m.Pairs (old m.Pairs))
-//@ ensures value-of-pair (= result (ite (mapin m.inner key) (. (mapget m.inner key) Value) (zero V)))
+//@ ensures value-of-pair (= result (ite (mapin m.inner key) (. (mapget m.inner key) Value) (zero (typeof (. (omPair m 0) Value)))))
 //@ ensures noop-when-consistent (=> (old (omConsistent m)) (and (heap-unchanged (obj m)) (heap-unchanged (map m.inner))))
 //@ ensures others-untouched (omOthersUntouched m)
 
@@ -76,9 +76,9 @@ package orderedmap
 //@ ensures ok-after (omOK m)
 //@ ensures same-index-map (= m.inner (old m.inner))
 //@ ensures stored (and (mapin m.inner key) (= (. (mapget m.inner key) Value) value) (= (. (mapget m.inner key) Key) key))
-//@ ensures keys (forall ((k K)) (= (mapin m.inner k) (or (= k key) (old (mapin m.inner k)))))
-//@ ensures other-entries-kept (forall ((k K)) (=> (and (not (= k key)) (old (mapin m.inner k))) (and (= (mapget m.inner k) (old (mapget m.inner k))) (= (deref (mapget m.inner k)) (old (deref (mapget m.inner k)))))))
+//@ ensures keys (forall ((k (keyof m.inner))) (= (mapin m.inner k) (or (= k key) (old (mapin m.inner k)))))
+//@ ensures other-entries-kept (forall ((k (keyof m.inner))) (=> (and (not (= k key)) (old (mapin m.inner k))) (and (= (mapget m.inner k) (old (mapget m.inner k))) (= (deref (mapget m.inner k)) (old (deref (mapget m.inner k)))))))
 //@ ensures overwrite-keeps-order (=> (old (mapin m.inner key)) (and (= m.Pairs (old m.Pairs)) (= (mapget m.inner key) (old (mapget m.inner key))) (forall ((i Int)) (=> (omInRange m i) (= (omPair m i) (old (omPair m i)))))))
 //@ ensures insert-appends (=> (not (old (mapin m.inner key))) (and (= (len m.Pairs) (+ (old (len m.Pairs)) 1)) (= (omPair m (old (len m.Pairs))) (mapget m.inner key)) (fresh (mapget m.inner key)) (forall ((i Int)) (=> (and (<= 0 i) (< i (old (len m.Pairs)))) (= (omPair m i) (old (omPair m i)))))))
-//@ ensures other-pairs-untouched (forall ((p *Pair[K,V])) (=> (and (allocated-before p) (not (= p (old (mapget m.inner key))))) (= (deref p) (old (deref p)))))
+//@ ensures other-pairs-untouched (forall ((p (typeof (omPair m 0)))) (=> (and (allocated-before p) (not (= p (old (mapget m.inner key))))) (= (deref p) (old (deref p)))))
 //@ ensures others-untouched (omOthersUntouched m)
